@@ -247,6 +247,7 @@ def body(e, L, cfg):
     d = cfg["d"]
     e.assume(z3.Or([a for row in g.arc for a in row]))
     acc.budget = symnp.AccessBudget(2)
+    e.retry_unknown = False          # bug hunting only: no second solver configuration for undecided branches
     try:
         r = L.approximate_capacity(acc, repeats=1)
     except Budget:
@@ -256,6 +257,7 @@ def body(e, L, cfg):
         return {"status": "ok", "sample": {"early": "bug hunt gave up on this path: %s" % ex}}
     finally:
         acc.budget = None
+        e.retry_unknown = True
     if not symnp.LOG_ARGS:
         return {"status": "ok", "sample": {"early": "no estimate"}}
     est = zreal(symnp.LOG_ARGS[-1])
@@ -266,7 +268,11 @@ def body(e, L, cfg):
         cert.append(z3.Sum([z3.If(g.arc[v][j], xs[succ(v, j, k)], 0) for j in range(4)]) <= (z3.RealVal(d) - z3.Q(1, 4)) * xs[v])
     # strongly connected and aperiodic (a self-loop) so that the structural precondition has a chance to hold
     cert.append(z3.Or([g.arc[v][v % 4] if k == 1 else z3.BoolVal(False) for v in range(N)]))
-    rr, m = e.check(*cert)
+    e.retry_unknown = False
+    try:
+        rr, m = e.check(*cert)
+    finally:
+        e.retry_unknown = True
     if rr == "sat":
         return {"status": "kf", "kf": "C17-KF1", "why": "deterministic mode stops after two iterations with estimate %d although the radius is at most %s" % (d, d - 0.25),
                 "cex": cex(m, repeats=1, want="accuracy")}
